@@ -421,10 +421,8 @@ func (st *c09Step) apply() *c09State {
 		if next == prev && cursorOK {
 			return s
 		}
-		if next != prev || s.Ret == nil {
-			if next != prev {
-				s.Ret = &next
-			}
+		if next != prev {
+			s.Ret = &next
 		}
 		if !cursorOK {
 			c := next.Local
